@@ -47,6 +47,28 @@ def gen_rich_rule(rng):
                                            rng.randrange(1, 3)))
     if rng.random() < 0.1:
         spec["wkst"] = rng.randrange(0, 7)
+    r = rng.random()
+    if r < 0.08:
+        # a rule that runs into datetime.MAXYEAR before COUNT is reached:
+        # len(L) < COUNT, legal and finite
+        spec = dict(freq=rng.choice([0, 1, 2, 3, 3]),
+                    dtstart=[9999, rng.choice([10, 11, 12, 12]),
+                             rng.randrange(1, 29), rng.randrange(0, 24), 0,
+                             0],
+                    interval=rng.choice([1, 1, 2]),
+                    count=rng.choice([3, 10, 11, 40]), cache=False)
+    elif r < 0.2:
+        # a rule whose expansion depends on the week start: every 2nd/3rd
+        # week on several weekdays (wkst explicit, or taken from the
+        # process-wide calendar.firstweekday() when the rule is built)
+        spec["freq"] = 2
+        spec["interval"] = rng.choice([2, 2, 3])
+        spec["byweekday"] = sorted(rng.sample(range(7), rng.choice([2, 3])))
+        spec.pop("bymonthday", None)
+        spec.pop("until", None)
+        spec.setdefault("count", rng.choice([5, 10, 11, 20]))
+        if rng.random() < 0.6:
+            spec.pop("wkst", None)
     return spec
 
 
@@ -107,8 +129,15 @@ def generate(cls, rng):
     ops = []
     n = rng.randrange(3, 30)
     is_rule = target.get("kind") != "set"
+    # process-wide configuration the rule constructor reads when no week
+    # start is given: calendar.firstweekday(); changed by events in the
+    # history in a third of the runs
+    fwd_events = rng.random() < 0.33
+    fwd0 = rng.choice([0, 0, 6, rng.randrange(7)]) if fwd_events else 0
     for _ in range(n):
         r = rng.random()
+        if fwd_events and rng.random() < 0.12:
+            ops.append(["firstweekday", rng.randrange(7)])
         if r < 0.18:
             # a partial iteration; with keep=True the iterator stays alive
             # (suspended) while later queries run -- on any twin, also the
@@ -140,7 +169,7 @@ def generate(cls, rng):
             else:
                 ops.append(["q", rng.choice([0, 1, 2]), q])
     return dict(target=target, warm=rng.choice([0, 1, 5, 9, 10, 11, 15, 25]),
-                ops=ops)
+                ops=ops, fwd0=fwd0)
 
 
 def cache_state(t):
@@ -153,7 +182,10 @@ def cache_state(t):
 
 
 def execute(cls, scenario, ctx):
+    import calendar
     tspec = scenario["target"]
+    fwd0 = scenario.get("fwd0", 0) % 7
+    calendar.setfirstweekday(fwd0)
     try:
         L = RL.model_list(tspec)
     except ValueError as e:
@@ -237,9 +269,22 @@ def execute(cls, scenario, ctx):
                 clients[t].do(["xiter", h, op[2], op[3], op[4]])
                 clients[t].do(["next", h, 1])
             guarded(xl, op)
+        elif op[0] == "firstweekday":
+            # process reconfiguration: rules already built keep the week
+            # start they were built with
+            calendar.setfirstweekday(op[1] % 7)
+            ctx.event("firstweekday", op[1] % 7)
+            if op[1] % 7 != fwd0:
+                ctx.probe("firstweekday_changed_after_construction")
         elif op[0] == "replace":
             t, name, val = op[1], op[2], op[3]
+            if tspec.get("kind") == "set":
+                continue
             spec2 = copy.deepcopy(tspec)
+            # "differing only in the named parameters": the week start the
+            # original was built with stays, whatever the calendar module
+            # says by now
+            spec2.setdefault("wkst", fwd0)
             spec2[name] = val
             if name == "count" and "until" in spec2:
                 pass        # both given: same keyword path in the model
